@@ -574,6 +574,17 @@ class DateTimeFieldFormat(AbstractFieldFormat):
         self._has_date = any(
             directive in self.strptime_format for directive in DateTimeFieldFormat._STRPTIME_DATE_DIRECTIVES
         )
+        try:
+            time.strptime("", self.strptime_format)
+        except re.error as error:
+            # For example "DD.DD", which would attempt to extract the day twice.
+            raise errors.InterfaceError(
+                "date format %s must contain each of DD, MM, YY, YYYY, hh, mm and ss at most once: %s"
+                % (_compat.text_repr(rule), error)
+            )
+        except ValueError:
+            # An empty text cannot match the format, so this is the expected outcome.
+            pass
 
     def sql_ansi_type(self):
         # FIXME: Use timestamp for ANSI, date, datetime and time for others.
